@@ -1,3 +1,5 @@
 //! R — router-sim: the real topic routers against scripted peers and a harness-owned executor.
 pub mod mocks;
 pub mod pubsub;
+pub mod reqrep;
+pub mod enumfail;
